@@ -44,7 +44,7 @@ def run(rep: Report) -> None:
         bad = None
         for p in ck.paths:
             for e in p.events:
-                if e[0] in ("order-pick", "reorder", "state-dict-aliased"):
+                if e[0] in ("order-pick", "reorder", "state-dict-aliased", "value-set", "global-state-store"):
                     # (an aliased state dictionary makes the result depend on the order in
                     # which the elements are stepped)
                     bad = e
